@@ -41,7 +41,7 @@ func c11Cases(n int, kind string, async bool) []cc.VerifC11Case {
 }
 
 func c11Base(n int) cc.VerifC11Spec {
-	return cc.VerifC11Spec{Names: c11Names(n), Cases: c11Cases(n, "pass", false), Start: "ok", Write: "ok", Close: "ok", Resp: "ok", Dies: -1}
+	return cc.VerifC11Spec{Names: c11Names(n), Cases: c11Cases(n, "pass", false), Start: "ok", Write: "ok", Close: "ok", Resp: "ok", Dies: -1, RespLen: cc.VerifC11RespLen()}
 }
 
 // stderr line pool; %s is replaced by a batch name
